@@ -188,15 +188,32 @@ def build(spec: dict) -> tuple[bytes, dict]:
     rest = list(objs)
     chain_at = ot.get("chain_at")
     if chain_at is not None and len(rest) > 1:
+        # additional object tables: 0x2000 -> A [-> B]; `chain_backwards` puts B at a lower file offset than A
         k = 1 + chain_at % (len(rest) - 1)
         second = rest[k:]
         rest = rest[:k]
-        o2, sz2 = alloc(8 + 18 * (len(second) + 2))
-        ents = second + [[0, 0, 0, 0]]
-        out[o2 : o2 + 8] = struct.pack("<II", SIG_OBJTABLE, len(ents))
-        for i, (ty, off, size, al) in enumerate(ents):
-            out[o2 + 8 + 18 * i : o2 + 26 + 18 * i] = struct.pack("<BIQIB", ty, 0, off, size, al)
-        rest.append([OT_OBJECT_TABLE, o2, sz2, 1])
+        third = []
+        if ot.get("chain_depth", 1) >= 2 and len(second) > 1:
+            third = second[len(second) // 2 :]
+            second = second[: len(second) // 2]
+
+        def write_table(off, ents):
+            out[off : off + 8] = struct.pack("<II", SIG_OBJTABLE, len(ents))
+            for i, (ty, o_, size, al) in enumerate(ents):
+                out[off + 8 + 18 * i : off + 26 + 18 * i] = struct.pack("<BIQIB", ty, 0, o_, size, al)
+
+        if third:
+            oa, sza = alloc(8 + 18 * (len(second) + 3))
+            ob, szb = alloc(8 + 18 * (len(third) + 2))
+            if ot.get("chain_backwards"):
+                oa, ob, sza, szb = ob, oa, szb, sza
+            write_table(ob, third + [[0, 0, 0, 0]])
+            write_table(oa, second + [[OT_OBJECT_TABLE, ob, szb, 1], [0, 0, 0, 0]])
+            rest.append([OT_OBJECT_TABLE, oa, sza, 1])
+        else:
+            o2, sz2 = alloc(8 + 18 * (len(second) + 2))
+            write_table(o2, second + [[0, 0, 0, 0]])
+            rest.append([OT_OBJECT_TABLE, o2, sz2, 1])
     i = 0
     for obj in rest:
         while i in holes:
